@@ -5,11 +5,48 @@ ENTRY = dict(
         title="Separating and partitioning a circuit preserves its structure and meaning",
         prop_file="Properties/C10.v",
         corr_files=["Corr/C10Corr.v"],
-        theorems=["c10_stub"],
+        theorems=["c10_split_barriers", "c10_combine_barriers", "c10_separate", "c10_exactly_one", "c10_members",
+                  "c10_commute", "c10_recompose", "c10_union_find", "c10_auto_idle", "c10_keep_idle_wires",
+                  "c10_separate_drops_idle", "c10_dx_contract_inhabited", "c10_cuts", "c10_problem_recompose",
+                  "c10_subobs_keys", "c10_subobs_tensor", "c10_separate_refuses", "c10_problem_refuses",
+                  "c10_idle_observable", "c10_idle_observable_problem", "c10_facts"],
         allowed_axioms=[],
-        facts=[],
+        facts=["value_error_sites", "c10_separate_calls", "c10_problem_calls", "c10_idle_group_removed",
+               "c10_auto_ignores_qpd2", "c10_keep_idle_default", "c10_label_suffix"],
         harness="c10",
-        level_text="stub",
-        level_note=STD_NOTE,
-        assumptions=[],
+        level_text="Unbounded theorems (all circuit lengths, qubit counts, label sequences, Pauli lists; by induction, no sampling) "
+                   "about the executable model of utils/transforms.py (barrier splitting with live-index iteration, union-find "
+                   "labelling, qubit map, per-partition instruction lists, re-indexing, barrier re-joining with the running delete "
+                   "shift) and of partition_circuit_qubits / cut numbering / TwoQubitQPDGate halves / sub-observables in "
+                   "cutting_decomposition.py: each subcircuit IS the original restricted to its label (order kept, barriers "
+                   "restricted per partition) re-indexed; per-wire sequences of the recomposition equal the original's; a generic "
+                   "commutation theorem turns equal per-wire/per-clbit projections into equal Herbrand denotations for any "
+                   "interleaving; union-find correctness (same root iff connected), idle <-> None, consecutive labels ordered by "
+                   "least qubit; the k-th cut gives two halves with suffix k and the same basis in the right partitions; keys of "
+                   "sub-observables = keys of subcircuits (same order) and the tensor product is the original string; refusals. "
+                   "Closed under the global context. The models are run against the implementation on >2000 generated cases per "
+                   "quick run (8 streams incl. every helper).",
+        level_note=STD_NOTE + "No axioms. partition_problem is modelled with the REPAIRED idle-qubit behaviour F4 (None group removed from "
+                   "the sub-observables; ValueError when an observable acts on a None-labelled qubit); on the unrepaired tree the "
+                   "correspondence disagrees exactly there and the property-level oracle confirms the violation.",
+        assumptions=[
+            "Model/Separate.v and Model/Partition.v are hand-written models; tied to /repo by the C10 correspondence (vm_compute of the "
+            "models on the inputs the implementation ran on; exact comparison of instruction lists, keys, orders, qubit maps, bases, "
+            "sub-observables, refusals) and by regenerated facts (stage order, refusal-site counts, ignore= predicate, label suffix)",
+            "labels are interned by Python ==/hash classes (None kept apart); gates, barrier uuid labels and QPD bases (by QPDBasis.__eq__) "
+            "are interned per case",
+            "oracle rustworkx.connected_components: assumed to return the connected components (monitored on every call made during "
+            "generation); the model computes them by union-find and proves that computation correct",
+            "oracle QuantumCircuit.decompose(TwoQubitQPDGate) (circuit -> DAG -> circuit): assumed to return a permutation of the in-place "
+            "expansion with the same per-qubit instruction sequences (monitored on every call); therefore the subcircuits of "
+            "partition_problem are compared with the model up to reordering of instructions that share no qubit, and the theorems about "
+            "partition_problem hold for every dx satisfying that contract",
+            "oracle QPDBasis.from_instruction: basis handle / ValueError per gate, supplied by the harness by calling it",
+            "Herbrand adequacy M1 (DESIGN 3.1): equal wire-history terms mean equal channel; barriers and cut_wire markers are identities; "
+            "QPD placeholders are opaque tagged gates",
+            "input circuits do not already contain one-qubit barriers labelled '_uuid=...' (hypothesis no_uuid of the theorems; such a "
+            "label is reserved by the implementation and would be merged by _combine_barriers)",
+            "zero-qubit instructions and clbits outside every classical register are modelled as Crashed (IndexError / AssertionError / "
+            "CircuitError in the implementation) and lie outside the property's quantifier",
+        ],
     )
